@@ -35,7 +35,7 @@ FUNCTIONS = [
 MUST_REACH = ["mbox.Mailbox.management_task", "mbox.Mailbox.command_can_proceed", "mbox.Mailbox.would_conflict", "parse.IMAPClientCommand.ready_and_okay", "mbox.Mailbox.copy", "client.Authenticated.do_move"]
 BOUNDS = {
     "quick": {"commands": "pairs from a menu of 14 (2 sessions x 1 command)", "schedule": "first 4 scheduling decisions symbolic, each choosing among (up to 3 of) the ready callbacks, FIFO afterwards", "messages": "3 in inbox, 2 in other", "conflict_step": "new command kind x 2 executing command kinds (15^3), message sets over 2 messages, peek flags, \\Deleted empty or not; both orders of the executing list"},
-    "thorough": {"schedule": "first 6 decisions symbolic", "commands": "plus 3-session triples", "conflict_step": "message sets over 3 messages"},
+    "thorough": {"schedule": "first 5 decisions symbolic", "conflict_step": "message sets over 3 messages"},
 }
 SYMBOLIC = ["scheduling decisions", "sequence number of the second command"]
 REALISED = ["decisions are used as list indices: the decision tree enumerates them (bounded by the number of ready callbacks)"]
@@ -269,7 +269,7 @@ def _conflict_step(kn, k1, k2, n1, n2, n3, a1, a2, a3, b1, b2, b3, pn, pa, pb, d
 def jobs(tier):
     q = tier == "quick"
     T = 600 if q else 2400
-    D = 4 if q else 6
+    D = 4 if q else 5
     js = []
     for kn in range(len(CKINDS)):
         if q:
